@@ -65,8 +65,10 @@ MANIFEST = {
             "file and folder level on every surface, with the number of corrupt-and-deleted items brought back MEASURED on the real "
             "objects) and cfg (real Computer.from_config with generated folder lists, then setup_for_episode).",
     "note": "C15-specific: health status, red-scan timers, sizes and file types are not modelled (no influence on structure "
-            "or response status); six leaf "
-            "handlers without a validator still raise IndexError on a truncated path (modelled as `raised`; C05's matter); the power "
+            "or response status); no request "
+            "path raises (after repair F-C05-2 a handler that lacks an option is answered `failure`: C15_no_request_raises, "
+            "C15_truncated_request_changes_nothing for every prefix of the 23 request shapes; the rig treats a raise on ANY path as a "
+            "violation); `raised` remains an outcome of direct Python-API calls only; the power "
             "machine is C12's: here the power flag is an input read from the real node, theorems hold for every flag history; the "
             "database service's direct writes to the counters (ENCRYPT query) are listed, not modelled.",
     "technique": "Lean 4 invariant proof over an executable file-system model; model tied by regenerated tables and a differential rig",
